@@ -19,8 +19,14 @@ std::chrono::nanoseconds clockToNsSinceEpoch(const ClockSync& clockSync, std::ui
 {
   using nanos = std::chrono::nanoseconds;
 
-  const std::int64_t diffValue = std::int64_t(clockValue - clockSync.clockValue);
-  const nanos diff = ticksToNanoseconds(clockSync.clockFrequency, diffValue);
+  // The distance of the two clock values might not fit into int64_t
+  // (a 4 GHz clock makes 2^63 ticks in 73 years): convert the magnitude, apply the sign after.
+  const bool after = (clockValue >= clockSync.clockValue);
+  const std::uint64_t ticks = after ? clockValue - clockSync.clockValue : clockSync.clockValue - clockValue;
+  const std::uint64_t f = clockSync.clockFrequency;
+  const std::uint64_t den = std::uint64_t(std::nano::den);
+  const std::int64_t ns = std::int64_t((ticks / f) * den + (ticks % f) * den / f);
+  const nanos diff{after ? ns : -ns};
   const nanos sinceEpoch = nanos{clockSync.nsSinceEpoch} + diff;
 
   return sinceEpoch;
